@@ -130,6 +130,8 @@ type BlockUtils struct {
 	RejectBody map[string]bool
 	// AcceptNilBlock: a lenient consumer that does not object to a proposal without a block.
 	AcceptNilBlock bool
+	// NilOnCancel: RequestNewBlockProposal answers a cancelled context by returning no block at all.
+	NilOnCancel bool
 	// Hooks (optional). OnRequest runs inside RequestNewBlockProposal before the block is minted;
 	// OnValidate runs inside ValidateBlockProposal before the verdict.
 	OnRequest  func(ctx context.Context, h uint64)
@@ -140,6 +142,10 @@ func (u *BlockUtils) RequestNewBlockProposal(ctx context.Context, h primitives.B
 	entryErr := ctx.Err() != nil
 	if u.OnRequest != nil {
 		u.OnRequest(ctx, uint64(h))
+	}
+	if u.NilOnCancel && ctx.Err() != nil {
+		u.Log.Add(Event{Node: u.Node, Kind: EvRequestBlock, H: uint64(h), CtxErr: true, Note: "nil block returned"})
+		return nil, nil
 	}
 	n := atomic.AddUint64(&u.cnt, 1)
 	b := &Blk{H: uint64(h), Body: fmt.Sprintf("by-%s-%d", u.Node, n)}
@@ -167,7 +173,7 @@ func (u *BlockUtils) ValidateBlockProposal(ctx context.Context, h primitives.Blo
 	case u.RejectBody != nil && u.RejectBody[b.Body]:
 		err = errors.New("consumer rejects")
 	}
-	u.Log.Add(Event{Node: u.Node, Kind: EvValidate, H: uint64(h), Hash: string(hash), Block: b, Ok: err == nil, CtxErr: ctx.Err() != nil})
+	u.Log.Add(Event{Node: u.Node, Kind: EvValidate, H: uint64(h), Hash: string(hash), Sender: string(id), Block: b, Ok: err == nil, CtxErr: ctx.Err() != nil})
 	return err
 }
 
@@ -188,6 +194,8 @@ type Membership struct {
 	Committee func(h uint64) []interfaces.CommitteeMember
 	// OnRequest (optional) may block or fail.
 	OnRequest func(ctx context.Context, h uint64) error
+	// KeyedByRefTime: the committee is looked up by the previous block's reference time (+1) instead of the height argument.
+	KeyedByRefTime bool
 }
 
 func (m *Membership) MyMemberId() primitives.MemberId { return primitives.MemberId(m.Me) }
@@ -201,11 +209,21 @@ func (m *Membership) RequestOrderedCommittee(ctx context.Context, h primitives.B
 			return nil, err
 		}
 	}
-	return copyCommittee(m.Committee(uint64(h))), nil
+	return copyCommittee(m.Committee(m.byRefTime(uint64(h), t))), nil
 }
 
 func (m *Membership) RequestCommitteeForBlockProof(ctx context.Context, h primitives.BlockHeight, t primitives.TimestampSeconds) ([]interfaces.CommitteeMember, error) {
-	return copyCommittee(m.Committee(uint64(h))), nil
+	return copyCommittee(m.Committee(m.byRefTime(uint64(h), t))), nil
+}
+
+// byRefTime: the committee contract is keyed by the reference time of the *previous* block (the harness's
+// blocks carry their height as reference time, genesis 0): asking with another block's reference time yields
+// that other height's committee, as a real time-keyed contract would.
+func (m *Membership) byRefTime(h uint64, t primitives.TimestampSeconds) uint64 {
+	if !m.KeyedByRefTime {
+		return h
+	}
+	return uint64(t) + 1
 }
 
 // every call hands out a fresh slice: the consumer owns its committee list, the library must not rely on (or alter) a shared one
@@ -256,6 +274,9 @@ type Comm struct {
 	Node   string
 	Log    *Log
 	OnSend func(to []string, m *interfaces.ConsensusRawMessage)
+	// FailSend (optional): the transport reports an error for this send although the message went out
+	// (e.g. one recipient unreachable). The library only logs it.
+	FailSend func() bool
 }
 
 func (c *Comm) SendConsensusMessage(ctx context.Context, to []primitives.MemberId, m *interfaces.ConsensusRawMessage) error {
@@ -270,6 +291,9 @@ func (c *Comm) SendConsensusMessage(ctx context.Context, to []primitives.MemberI
 	c.Log.Add(ev)
 	if c.OnSend != nil {
 		c.OnSend(tos, m)
+	}
+	if c.FailSend != nil && c.FailSend() {
+		return errors.New("transport: a recipient is unreachable")
 	}
 	return nil
 }
